@@ -17,7 +17,7 @@ CHECKS = {
         technique='runtime monitoring: lock-step reference-model monitor with transaction context; digests and multisig matching observed through captured log lines (ASan+UBSan build)',
         text='Exploration: an independent signer builds transactions (1..4 inputs, all hash-type bytes, code separators, annex, FindAndDelete, multisig in/out of order, tapscript CHECKSIGADD chains and budgets) and signs them; '
              'the real interpreter is stepped with that context and compared after every operation with the reference interpreter using reference ECDSA/BIP340 verification over reference legacy/BIP143/BIP341-342 digests; '
-             'the digest each signature opcode actually computed and the per-signature accept/reject sequence of CHECKMULTISIG are compared as well; every corruption must be rejected with the error the active flags select.',
+             'the digest each signature opcode actually computed and the per-signature accept/reject sequence of CHECKMULTISIG are compared as well; every corruption must be rejected with the error the active flags select. A third of the sessions hover (every step taken, taken back, taken again).',
         note='trusted: ref/secp.py, ref/sighash.py, ref/verify.py (anchored on the six doc/txs chain pairs and BIP340 vector 0); Schnorr contexts are single-input (known finding for multi-input)',
         ref='5 C02'),
     'C03': dict(
@@ -101,17 +101,17 @@ CHECKS = {
         note='trusted: hashlib, ref/codec.py, ref/secp.py; documented leniencies in the evidence assumptions (byte order of jacobi operands, bech32 witness version, reverse of integers not judged)',
         ref='5 C14'),
     'C15': dict(
-        technique='runtime monitoring: AddressSanitizer+UndefinedBehaviorSanitizer builds of btcc/btcdeb/tap driven one process per case with structure-aware hostile input; valgrind memcheck sample on the plain build',
+        technique='runtime monitoring: AddressSanitizer+UndefinedBehaviorSanitizer builds of btcc/btcdeb/tap driven one process per case with structure-aware hostile input; coverage-guided mutation (libFuzzer+ASan+UBSan) of five library entry points; valgrind memcheck sample on the plain build',
         text='Exploration: hostile argument lists, option values, transaction pairs with structural lies (out-of-range prevout and select indices, hostile witness shapes), stdin variants, interactive command sequences '
              '(step/rewind/exec/tf/print, incl. exec OP_CODESEPARATOR and commands after failure / at the end) and tap invocations; a violation is a signal, sanitizer report, uncaught exception, failed assertion or repeated hang, keyed by '
-             'tool:kind:innermost repository frame:entry frame so that one defect is one finding; plus memcheck (uninitialised reads) on a sample. All behavioural monitors C01-C14 run on the same sanitizer build and report crashes themselves.',
-        note='trusted: gcc ASan/UBSan runtimes, valgrind; scripted-REPL lines are kept under 1500 characters (GNU readline fed from a pipe is outside its design envelope); leaks are outside the property',
+             'tool:kind:innermost repository frame:entry frame so that one defect is one finding; plus a coverage-guided stage (clang libFuzzer + ASan + UBSan over Value/parse_args, fn_tf, transaction parsing, script sessions with rewinds and exec, --tx/--txin sessions, seeded with grammar-valid inputs; executions and edges covered per target are reported); plus memcheck (uninitialised reads) on a sample. All behavioural monitors C01-C14 run on the same sanitizer build and report crashes themselves.',
+        note='trusted: gcc ASan/UBSan runtimes, valgrind; clang 14 libFuzzer; scripted-REPL lines are kept under 900 characters and free of ESC / 8-bit bytes (those are editing commands of GNU readline, which fed from a pipe is outside its design envelope); leaks are outside the property',
         ref='5 C15'),
     'C16': dict(
         technique='runtime monitoring: reference-model monitor over Instance::eval() at random session prefixes (ASan+UBSan build)',
         text='Exploration: exec token lists (opcode names, decimals, hex pushes, invalid tokens) are issued at the start, middle, last operation and end of model-steered sessions; the state after exec is compared with the reference '
-             'interpreter executing the compiled operations on the same pre-state (stack, alt stack, condition stack, op count), the error code if one fails, position/remaining script must be untouched, and the rest of the session is stepped and compared.',
-        note='trusted: ref/script.py; the token grammar as documented by exec; OP_CODESEPARATOR / signature opcodes inside exec are left to C15',
+             'interpreter executing the compiled operations on the same pre-state (stack, alt stack, condition stack, op count), the error code if one fails (and that a script error is not reported as an exception), position/remaining script must be untouched, and the rest of the session is stepped and compared; 30% of the sessions issue another exec first.',
+        note='trusted: ref/script.py; the token grammar as documented by exec; tapscript signature checks inside exec are judged for their budget accounting; OP_CODESEPARATOR and real signature verification inside exec are left to C15',
         ref='5 C16'),
     'C17': dict(
         technique='runtime monitoring: reference-function monitor over one-op Instance::step() traces, exhaustive over a boundary operand pool (ASan+UBSan build)',
